@@ -12,6 +12,12 @@
 //!       (thorough: across 2^32),
 //!   (d) in fresh child processes (std's per-process `RandomState` seeds differ: this is what exposes any dependence
 //!       on hash-map iteration order),
+//!   (e) again after a pause of more than a second (fonts whose head has every combination of creation /
+//!       modification date, built with FontBuilder and subset with klippa: any wall-clock dependence),
+//!   (f) "buffer reuse": different fonts loaded one after the other into ONE allocation and handed to the entry
+//!       points that take `&[u8]` (klippa subsetting, read -> to_owned -> dump_table, skrifa charmap / metrics /
+//!       outlines / hinting), on one thread and on a thread per call, vs. a fresh buffer on a fresh thread: any cache
+//!       keyed by address,
 //! and all bytes must be identical.  A difference is reported with the recipe and the first differing offset.
 //!
 //! Correspondence (vs Model/Determinism.lean): the real `OBJECT_COUNTER` under real thread interleavings
@@ -91,7 +97,7 @@ fn first_diff(a: &[u8], b: &[u8]) -> String {
 // ------------------------------------------------------------------------------------------------
 // recipes: (kind, seed) -> bytes.  Everything random derives from the seed; nothing from the environment.
 
-const KINDS: [&str; 12] = ["mock", "gpos", "gsub", "gvar", "ivs", "classdef", "iup", "font", "subset", "mockbig", "spacefam", "tiefam"];
+const KINDS: [&str; 14] = ["mock", "gpos", "gsub", "gvar", "ivs", "classdef", "iup", "font", "subset", "mockbig", "spacefam", "tiefam", "pairfam", "dates"];
 
 #[derive(Clone, Debug)]
 struct Recipe {
@@ -101,9 +107,12 @@ struct Recipe {
 
 impl Recipe {
     fn show(&self) -> String {
-        if self.kind == "tiefam" {
+        if self.kind == "dates" {
+            return format!("recipe kind={} seed={} {}", self.kind, self.seed, dates_plan(self.seed, &mut Rng::new(self.seed)).describe());
+        }
+        if self.kind == "tiefam" || self.kind == "pairfam" {
             // the graph itself: index(size):target/width,…  (index 0 is the root; /4 = Offset32, /2 = Offset16)
-            let (nodes, _) = tie_spec(&mut Rng::new(self.seed));
+            let nodes = if self.kind == "tiefam" { tie_spec(&mut Rng::new(self.seed)).0 } else { pair_spec(&mut Rng::new(self.seed)) };
             let g: Vec<String> = nodes
                 .iter()
                 .enumerate()
@@ -116,7 +125,7 @@ impl Recipe {
 }
 
 fn recipes(cfg_seed: u64, thorough: bool) -> Vec<Recipe> {
-    let per_kind: &[(usize, usize)] = &[(120, 1200), (40, 300), (30, 200), (40, 300), (40, 300), (50, 400), (30, 300), (20, 150), (40, 300), (60, 500), (120, 1000), (100, 800)];
+    let per_kind: &[(usize, usize)] = &[(120, 1200), (40, 300), (30, 200), (40, 300), (40, 300), (50, 400), (30, 300), (20, 150), (40, 300), (60, 500), (120, 1000), (100, 800), (60, 500), (48, 240)];
     let mut out = vec![];
     for (k, kind) in KINDS.iter().enumerate() {
         let n = if thorough { per_kind[k].1 } else { per_kind[k].0 };
@@ -143,6 +152,8 @@ fn compile_inner(r: &Recipe) -> Vec<u8> {
         "mockbig" => mock_graph(&mut rng, true),
         "spacefam" => space_family(&mut rng),
         "tiefam" => tie_family(&mut rng),
+        "pairfam" => pair_family(&mut rng),
+        "dates" => dates_family(r.seed, &mut rng),
         "gpos" => gpos(&mut rng),
         "gsub" => gsub(&mut rng),
         "gvar" => gvar(&mut rng),
@@ -544,6 +555,453 @@ fn tie_family(rng: &mut Rng) -> Vec<u8> {
 
 thread_local! {
     static TIEFAM_SHAPE: std::cell::Cell<TieShape> = const { std::cell::Cell::new(TieShape { dup_roots: 0, tied: false, unequal_paths: false, between: false }) };
+}
+
+// ---- "pair family": several roots of one 32-bit space that share a 16-bit descendant; nothing is duplicated when
+// ---- spaces are assigned, the space overflows below the shared object and isolating ANY of the roots cures it ----
+
+/// ```text
+///   root =32=> R_1 … R_k (k = 2, rarely 3);  R_i -16-> its own bulk (33..34.5 KB in 1..3 objects), R_i -16-> M
+///   M -16-> (N -16->)* L   (L: 25..30 KB)      [sometimes root =32=> W (70 KB), root -16-> Z as well]
+/// ```
+/// With all roots in one space the bulk sits between M and L (M -> L, or the last N -> L, does not fit in 16
+/// bits: Kahn and shortest-distance order both overflow); with one root moved to its own space (own copies of
+/// M … L) both fit. Which root `try_isolating_subgraphs` moves is decided by `find_root_of_space`, which walks up
+/// `parents[0]` from the overflowing object: the result depends on the ORDER of the parent lists. Compiled through
+/// `dump_table` on a `FontWrite` value (a mock table, not GSUB/GPOS: no promotion, nothing rebuilds the parent
+/// lists before the first isolation round).
+fn pair_spec(rng: &mut Rng) -> Vec<TNode> {
+    let mut nodes: Vec<TNode> = vec![];
+    let add = |nodes: &mut Vec<TNode>, size: usize| {
+        nodes.push(TNode { size, links: vec![] });
+        nodes.len() - 1
+    };
+    let root = add(&mut nodes, 0);
+    let k = if rng.chance(1, 6) { 3 } else { 2 };
+    // the shared tail M -> (N ->)* L
+    let m = add(&mut nodes, rng.range(20, 200) as usize);
+    let mut tail = m;
+    for _ in 0..*rng.pick(&[0usize, 0, 0, 1, 2]) {
+        let n = add(&mut nodes, rng.range(10, 120) as usize);
+        nodes[tail].links.push((n, 2));
+        tail = n;
+    }
+    let l = add(&mut nodes, rng.range(25_000, 30_000) as usize);
+    nodes[tail].links.push((l, 2));
+    if rng.chance(1, 4) {
+        let leaf = add(&mut nodes, rng.range(10, 300) as usize);
+        nodes[m].links.push((leaf, 2)); // a small second child of M
+    }
+    let mut root_links: Vec<(usize, u8)> = vec![];
+    if rng.chance(1, 2) {
+        let w = add(&mut nodes, rng.range(66_000, 72_000) as usize);
+        let z = add(&mut nodes, rng.range(8, 40) as usize);
+        root_links.push((w, 4));
+        root_links.push((z, 2));
+    }
+    for _ in 0..k {
+        let r = add(&mut nodes, rng.range(12, 140) as usize);
+        let parts = *rng.pick(&[1usize, 2, 2, 2, 3]);
+        let bulk = rng.range(33_000, 34_500) as usize;
+        let mut links: Vec<(usize, u8)> = vec![];
+        for part in 0..parts {
+            // unequal parts, every one smaller than L (so all of them are placed before L)
+            let size = bulk / parts + if part % 2 == 0 { rng.below(200) as usize } else { 0 };
+            let b = add(&mut nodes, size.min(24_000));
+            links.push((b, 2));
+        }
+        links.push((m, 2));
+        if rng.chance(1, 2) {
+            rng.shuffle(&mut links);
+        }
+        nodes[r].links = links;
+        root_links.push((r, 4));
+    }
+    if rng.chance(1, 2) {
+        rng.shuffle(&mut root_links);
+    }
+    nodes[root].links = root_links;
+    for n in nodes.iter_mut() {
+        let fixed = 4 + n.links.iter().map(|(_, w)| *w as usize).sum::<usize>();
+        n.size = n.size.max(fixed);
+    }
+    nodes
+}
+
+fn pair_family(rng: &mut Rng) -> Vec<u8> {
+    let nodes = pair_spec(rng);
+    res(dump_table(&TieTable { nodes: &nodes, at: 0 }))
+}
+
+// ---- "dates": fonts whose head table carries every combination of creation / modification date ------------------
+
+/// 2023-11-14 22:13:20 UTC as seconds since 1904-01-01
+const A_REAL_DATE: i64 = 1_700_000_000 + 2_082_844_800;
+
+struct DatesPlan {
+    created: i64,
+    modified: i64,
+    /// build a font with FontBuilder directly / subset (klippa) a test font whose head was given these dates
+    subset_of: Option<&'static str>,
+    font_revision: i32,
+    units_per_em: u16,
+    flags: u16,
+}
+
+impl DatesPlan {
+    fn describe(&self) -> String {
+        format!(
+            "head.created={} head.modified={} fontRevision={:#x} unitsPerEm={} flags={} via {}",
+            self.created,
+            self.modified,
+            self.font_revision,
+            self.units_per_em,
+            self.flags,
+            match self.subset_of {
+                None => "FontBuilder (head, maxp, hhea, post + raw tables)".to_string(),
+                Some(name) => format!("klippa::subset_font of font-test-data {name} with these dates patched into its head"),
+            }
+        )
+    }
+}
+
+/// created ∈ {0, 1, a real date} × modified ∈ {0, 1, a real date, before created}: the combination is a function of
+/// the recipe index (every combination occurs, directly built and subset), the rest of the seed
+fn dates_plan(seed: u64, rng: &mut Rng) -> DatesPlan {
+    let i = (seed % 100_000) as usize;
+    let created = [0i64, 1, A_REAL_DATE][i % 3];
+    let modified = match (i / 3) % 4 {
+        0 => 0,
+        1 => 1,
+        2 => A_REAL_DATE + 86_400,
+        _ => created - 1 - rng.below(1000) as i64,
+    };
+    let subsettable = ["SIMPLE_GLYF", "GLYF_COMPONENTS", "VAZIRMATN_VAR", "TINOS_SUBSET", "CMAP12_FONT1"];
+    let subset_of = if (i / 12) % 2 == 1 { Some(*rng.pick(&subsettable)) } else { None };
+    DatesPlan {
+        created,
+        modified,
+        subset_of,
+        font_revision: *rng.pick(&[0i32, 0, 0x10000, 0x28000]),
+        units_per_em: *rng.pick(&[0u16, 1000, 2048]),
+        flags: *rng.pick(&[0u16, 0, 3, 0x000b]),
+    }
+}
+
+/// overwrite head.created / head.modified (and revision, flags, unitsPerEm) in the bytes of a font file
+fn patch_head(font: &mut [u8], plan: &DatesPlan) -> bool {
+    let n = u16::from_be_bytes([font[4], font[5]]) as usize;
+    for t in 0..n {
+        let rec = 12 + 16 * t;
+        if &font[rec..rec + 4] == b"head" {
+            let off = u32::from_be_bytes([font[rec + 8], font[rec + 9], font[rec + 10], font[rec + 11]]) as usize;
+            if off + 54 > font.len() {
+                return false;
+            }
+            font[off + 4..off + 8].copy_from_slice(&plan.font_revision.to_be_bytes());
+            font[off + 16..off + 18].copy_from_slice(&plan.flags.to_be_bytes());
+            if plan.units_per_em != 0 {
+                font[off + 18..off + 20].copy_from_slice(&plan.units_per_em.to_be_bytes());
+            }
+            font[off + 20..off + 28].copy_from_slice(&plan.created.to_be_bytes());
+            font[off + 28..off + 36].copy_from_slice(&plan.modified.to_be_bytes());
+            return true;
+        }
+    }
+    false
+}
+
+fn dates_family(seed: u64, rng: &mut Rng) -> Vec<u8> {
+    use write_fonts::tables::{head::Head, hhea::Hhea, maxp::Maxp};
+    let plan = dates_plan(seed, rng);
+    match plan.subset_of {
+        None => {
+            let head = Head {
+                font_revision: font_types::Fixed::from_bits(plan.font_revision),
+                flags: plan.flags,
+                units_per_em: plan.units_per_em,
+                created: font_types::LongDateTime::new(plan.created),
+                modified: font_types::LongDateTime::new(plan.modified),
+                ..Default::default()
+            };
+            let mut fb = FontBuilder::new();
+            let _ = fb.add_table(&head);
+            let _ = fb.add_table(&Maxp::new(rng.range(1, 40) as u16));
+            let _ = fb.add_table(&Hhea { number_of_h_metrics: 1, ..Default::default() });
+            let names = ["a", "b", ".notdef", "A"];
+            let _ = fb.add_table(&write_fonts::tables::post::Post::new_v2(names.iter().copied().take(rng.range(1, 4) as usize)));
+            for _ in 0..rng.range(0, 4) {
+                let tag = Tag::new(&[b'z', b'a' + rng.below(26) as u8, b'0' + rng.below(10) as u8, b' ']);
+                let len = rng.range(0, 90) as usize;
+                fb.add_raw(tag, rng.bytes(len));
+            }
+            fb.build()
+        }
+        Some(name) => {
+            use klippa::{subset_font, Plan, SubsetFlags};
+            let Some((_, data)) = test_fonts().into_iter().find(|(n, _)| *n == name) else { return b"ERR:nofont".to_vec() };
+            let mut bytes = data.to_vec();
+            if !patch_head(&mut bytes, &plan) {
+                return b"ERR:nohead".to_vec();
+            }
+            let Ok(font) = FontRef::new(&bytes) else { return b"ERR:open".to_vec() };
+            let num = font.table_data(Tag::new(b"maxp")).map(|d| u16::from_be_bytes([d.as_bytes()[4], d.as_bytes()[5]])).unwrap_or(1) as u64;
+            let mut gids = IntSet::<GlyphId>::empty();
+            for _ in 0..rng.range(1, 4) {
+                gids.insert(GlyphId::new(rng.below(num.max(1)) as u32));
+            }
+            let mut unicodes = IntSet::<u32>::empty();
+            for _ in 0..rng.range(0, 8) {
+                unicodes.insert(rng.range(0x20, 0x7e) as u32);
+            }
+            let mut layout_scripts = IntSet::<Tag>::empty();
+            layout_scripts.invert();
+            let mut layout_features = IntSet::<Tag>::empty();
+            layout_features.extend(klippa::DEFAULT_LAYOUT_FEATURES.iter().copied());
+            let mut name_ids = IntSet::<font_types::NameId>::empty();
+            name_ids.insert_range(font_types::NameId::from(0)..=font_types::NameId::from(6));
+            let mut name_languages = IntSet::<u16>::empty();
+            name_languages.insert(0x0409);
+            let plan = Plan::new(&gids, &unicodes, &font, SubsetFlags::default(), &IntSet::<Tag>::empty(), &layout_scripts, &layout_features, &name_ids, &name_languages);
+            match subset_font(&font, &plan) {
+                Ok(b) => b,
+                Err(e) => format!("ERR:{e:?}").into_bytes(),
+            }
+        }
+    }
+}
+
+// ---- buffer reuse: entry points that take `&[u8]`, given DIFFERENT fonts at the SAME address and length -----------
+
+const ENTRIES: [&str; 4] = ["klippa-subset(glyph ids + codepoints)", "klippa-subset(many codepoints)", "read tables -> to_owned -> dump_table", "skrifa charmap + metrics + unhinted/hinted outlines"];
+
+#[derive(Default)]
+struct TextPen(String);
+impl skrifa::outline::OutlinePen for TextPen {
+    fn move_to(&mut self, x: f32, y: f32) {
+        self.0.push_str(&format!("M{:08x}{:08x}", x.to_bits(), y.to_bits()));
+    }
+    fn line_to(&mut self, x: f32, y: f32) {
+        self.0.push_str(&format!("L{:08x}{:08x}", x.to_bits(), y.to_bits()));
+    }
+    fn quad_to(&mut self, a: f32, b: f32, x: f32, y: f32) {
+        self.0.push_str(&format!("Q{:08x}{:08x}{:08x}{:08x}", a.to_bits(), b.to_bits(), x.to_bits(), y.to_bits()));
+    }
+    fn curve_to(&mut self, a: f32, b: f32, c: f32, d: f32, x: f32, y: f32) {
+        self.0.push_str(&format!("C{:08x}{:08x}{:08x}{:08x}{:08x}{:08x}", a.to_bits(), b.to_bits(), c.to_bits(), d.to_bits(), x.to_bits(), y.to_bits()));
+    }
+    fn close(&mut self) {
+        self.0.push('Z');
+    }
+}
+
+/// one entry point on the font file at `bytes`; everything random derives from `seed`
+fn entry_point(entry: usize, seed: u64, bytes: &[u8]) -> Vec<u8> {
+    let bytes_ptr = bytes;
+    match catch(move || entry_point_inner(entry, seed, bytes_ptr)) {
+        Ok(b) => b,
+        Err(msg) => format!("PANIC:{msg}").into_bytes(),
+    }
+}
+
+fn entry_point_inner(entry: usize, seed: u64, bytes: &[u8]) -> Vec<u8> {
+    use skrifa::MetadataProvider;
+    let mut rng = Rng::new(seed);
+    let Ok(font) = FontRef::new(bytes) else { return b"ERR:open".to_vec() };
+    match entry {
+        0 | 1 => {
+            use klippa::{subset_font, Plan, SubsetFlags};
+            if font.table_data(Tag::new(b"cmap")).is_none() {
+                return b"ERR:nocmap".to_vec();
+            }
+            let num = font.table_data(Tag::new(b"maxp")).map(|d| u16::from_be_bytes([d.as_bytes()[4], d.as_bytes()[5]])).unwrap_or(1) as u64;
+            let mut gids = IntSet::<GlyphId>::empty();
+            let mut unicodes = IntSet::<u32>::empty();
+            if entry == 0 {
+                for _ in 0..rng.range(1, 4) {
+                    gids.insert(GlyphId::new(rng.below(num.max(1)) as u32));
+                }
+                unicodes.insert_range(0x61..=0x63);
+                for _ in 0..rng.range(0, 6) {
+                    unicodes.insert(rng.range(0x20, 0x700) as u32);
+                }
+            } else {
+                // at least as many codepoints as the font has glyphs
+                unicodes.insert_range(0x20..=(0x20 + num as u32 + rng.below(300) as u32));
+                unicodes.insert_range(0x600..=0x6ff);
+                unicodes.insert_range(0xe000..=0xe400);
+            }
+            let mut layout_scripts = IntSet::<Tag>::empty();
+            layout_scripts.invert();
+            let mut layout_features = IntSet::<Tag>::empty();
+            layout_features.extend(klippa::DEFAULT_LAYOUT_FEATURES.iter().copied());
+            let mut name_ids = IntSet::<font_types::NameId>::empty();
+            name_ids.insert_range(font_types::NameId::from(0)..=font_types::NameId::from(6));
+            let mut name_languages = IntSet::<u16>::empty();
+            name_languages.insert(0x0409);
+            let plan = Plan::new(&gids, &unicodes, &font, SubsetFlags::default(), &IntSet::<Tag>::empty(), &layout_scripts, &layout_features, &name_ids, &name_languages);
+            match subset_font(&font, &plan) {
+                Ok(b) => b,
+                Err(e) => format!("ERR:{e:?}").into_bytes(),
+            }
+        }
+        2 => {
+            use read_fonts::TableProvider;
+            use write_fonts::from_obj::ToOwnedTable;
+            use write_fonts::tables as wt;
+            let mut out = vec![];
+            macro_rules! reser {
+                ($get:ident, $ty:ty) => {
+                    match font.$get() {
+                        Ok(t) => {
+                            let owned: $ty = t.to_owned_table();
+                            out.extend_from_slice(stringify!($get).as_bytes());
+                            out.extend(res(dump_table(&owned)));
+                        }
+                        Err(_) => out.extend_from_slice(concat!(stringify!($get), ":none;").as_bytes()),
+                    }
+                };
+            }
+            reser!(cmap, wt::cmap::Cmap);
+            reser!(name, wt::name::Name);
+            reser!(post, wt::post::Post);
+            reser!(head, wt::head::Head);
+            reser!(hhea, wt::hhea::Hhea);
+            reser!(maxp, wt::maxp::Maxp);
+            reser!(os2, wt::os2::Os2);
+            reser!(gdef, wt::gdef::Gdef);
+            reser!(gsub, wt::gsub::Gsub);
+            reser!(gpos, wt::gpos::Gpos);
+            reser!(fvar, wt::fvar::Fvar);
+            reser!(avar, wt::avar::Avar);
+            out
+        }
+        _ => {
+            use skrifa::instance::{LocationRef, Size};
+            use skrifa::outline::{DrawSettings, HintingInstance, HintingOptions};
+            let mut out = String::new();
+            for (cp, gid) in font.charmap().mappings().take(40) {
+                out.push_str(&format!("{cp:x}>{};", gid.to_u32()));
+            }
+            let size = Size::new(*rng.pick(&[9.0f32, 12.0, 16.0, 33.0]));
+            let m = font.metrics(size, LocationRef::default());
+            out.push_str(&format!("upem{} asc{:08x} desc{:08x};", m.units_per_em, m.ascent.to_bits(), m.descent.to_bits()));
+            let gm = font.glyph_metrics(size, LocationRef::default());
+            let outlines = font.outline_glyphs();
+            let hinter = HintingInstance::new(&outlines, size, LocationRef::default(), HintingOptions::default()).ok();
+            let n = font.table_data(Tag::new(b"maxp")).map(|d| u16::from_be_bytes([d.as_bytes()[4], d.as_bytes()[5]])).unwrap_or(0) as u32;
+            for g in 0..n.min(24) {
+                let gid = GlyphId::new(g);
+                out.push_str(&format!("g{g}adv{:?};", gm.advance_width(gid).map(|a| a.to_bits())));
+                if let Some(og) = outlines.get(gid) {
+                    let mut pen = TextPen::default();
+                    let r = og.draw(DrawSettings::unhinted(size, LocationRef::default()), &mut pen);
+                    out.push_str(&format!("u{}{};", r.is_ok(), pen.0));
+                    let mut pen = TextPen::default();
+                    let r = og.draw(DrawSettings::unhinted(Size::unscaled(), LocationRef::default()), &mut pen);
+                    out.push_str(&format!("n{}{};", r.is_ok(), pen.0));
+                    if let Some(h) = &hinter {
+                        let mut pen = TextPen::default();
+                        let r = og.draw(DrawSettings::hinted(h, false), &mut pen);
+                        out.push_str(&format!("h{}{};", r.is_ok(), pen.0));
+                    }
+                }
+            }
+            out.into_bytes()
+        }
+    }
+}
+
+/// An application that keeps ONE read buffer: font after font is loaded into the same allocation (zero padded to
+/// the buffer's length) and handed to an entry point. What comes out for a font must be what comes out for the same
+/// bytes in a fresh allocation on a fresh thread, whatever was at that address before.
+fn buffer_reuse(s: &mut Session, rng: &mut Rng, thorough: bool) {
+    let fonts = test_fonts();
+    let len = fonts.iter().map(|(_, d)| d.len()).max().unwrap_or(0) + 64;
+    let n_jobs = if thorough { 600 } else { 90 };
+    // jobs: (font, entry, seed); consecutive jobs use different fonts; subsetting twice as often as the rest
+    let mut jobs: Vec<(usize, usize, u64)> = vec![];
+    for _ in 0..n_jobs {
+        let mut f = rng.below(fonts.len() as u64) as usize;
+        if jobs.last().map_or(false, |j| j.0 == f) {
+            f = (f + 1) % fonts.len();
+        }
+        let entry = *rng.pick(&[0usize, 0, 0, 1, 1, 2, 3]);
+        jobs.push((f, entry, rng.next()));
+    }
+    let load = |buf: &mut Vec<u8>, f: usize| {
+        let data = fonts[f].1;
+        buf.clear();
+        buf.extend_from_slice(data);
+        buf.resize(len, 0);
+    };
+    // reference: fresh allocation, fresh thread
+    let fresh: Vec<Vec<u8>> = jobs
+        .iter()
+        .map(|&(f, entry, seed)| {
+            let mut own = Vec::new();
+            load(&mut own, f);
+            std::thread::spawn(move || {
+                std::panic::set_hook(Box::new(|_| {}));
+                entry_point(entry, seed, &own)
+            })
+            .join()
+            .unwrap()
+        })
+        .collect();
+    // (1) one thread, one buffer
+    let mut buf: Vec<u8> = Vec::with_capacity(len);
+    load(&mut buf, 0);
+    let addr = buf.as_ptr() as usize;
+    let mut moved = 0;
+    let same_thread: Vec<Vec<u8>> = std::thread::scope(|sc| {
+        sc.spawn(|| {
+            std::panic::set_hook(Box::new(|_| {}));
+            jobs.iter()
+                .map(|&(f, entry, seed)| {
+                    load(&mut buf, f);
+                    if buf.as_ptr() as usize != addr {
+                        moved += 1;
+                    }
+                    entry_point(entry, seed, &buf)
+                })
+                .collect()
+        })
+        .join()
+        .unwrap()
+    });
+    // (2) the same buffer, every job on a thread of its own
+    let other_threads: Vec<Vec<u8>> = jobs
+        .iter()
+        .map(|&(f, entry, seed)| {
+            load(&mut buf, f);
+            if buf.as_ptr() as usize != addr {
+                moved += 1;
+            }
+            let view: &[u8] = &buf;
+            std::thread::scope(|sc| {
+                sc.spawn(move || {
+                    std::panic::set_hook(Box::new(|_| {}));
+                    entry_point(entry, seed, view)
+                })
+                .join()
+                .unwrap()
+            })
+        })
+        .collect();
+    s.oracle("buffer-reuse:the-buffer-stayed-at-one-address", moved == 0, || format!("{n_jobs} loads into a Vec of capacity {len}"), || format!("{moved} loads moved the allocation"));
+    for (j, &(f, entry, seed)) in jobs.iter().enumerate() {
+        s.count(&format!("buffer-reuse:{}:{}", ENTRIES[entry].split('(').next().unwrap_or("").trim(), if fresh[j].starts_with(b"ERR:") || fresh[j].starts_with(b"PANIC:") { "err" } else { "bytes" }));
+        let input = || {
+            let prev = if j == 0 { "the same font".to_string() } else { format!("font-test-data {} (given to: {})", fonts[jobs[j - 1].0].0, ENTRIES[jobs[j - 1].1]) };
+            format!(
+                "one {len}-byte read buffer (fonts zero-padded to its length); loaded font-test-data {} and called: {} [seed {seed}]; before that the buffer held {prev}",
+                fonts[f].0, ENTRIES[entry]
+            )
+        };
+        s.oracle("same-bytes-at-a-reused-buffer-address-as-in-a-fresh-buffer(same-thread)", same_thread[j] == fresh[j], input, || first_diff(&fresh[j], &same_thread[j]));
+        s.oracle("same-bytes-at-a-reused-buffer-address-as-in-a-fresh-buffer(one-thread-per-call)", other_threads[j] == fresh[j], input, || first_diff(&fresh[j], &other_threads[j]));
+    }
 }
 
 fn mock_graph(rng: &mut Rng, big: bool) -> Vec<u8> {
@@ -1290,6 +1748,27 @@ fn run(cfg: &Config, s: &mut Session) {
         }
     }
     let base_sig: Vec<String> = base.iter().map(|b| sig(b)).collect();
+    for r in rs.iter().filter(|r| r.kind == "dates") {
+        let p = dates_plan(r.seed, &mut Rng::new(r.seed));
+        s.count(&format!(
+            "dates:created={},modified={}{}",
+            match p.created { 0 => "0", 1 => "1", _ => "date" },
+            match p.modified { 0 => "0", 1 => "1", m if m < p.created => "<created", _ => "date" },
+            if p.subset_of.is_some() { ",subset" } else { ",built" }
+        ));
+    }
+
+    // (e) wall clock: everything that ends in FontBuilder::build again, more than a second later (one pause per run)
+    std::thread::sleep(std::time::Duration::from_millis(1150));
+    for (i, r) in rs.iter().enumerate() {
+        if matches!(r.kind, "dates" | "font" | "subset") {
+            let later = compile(r);
+            s.oracle("same-bytes-after-a-1.1s-pause", later == base[i], || r.show(), || first_diff(&base[i], &later));
+        }
+    }
+
+    // (f) different fonts at the same buffer address
+    buffer_reuse(s, &mut rng, thorough);
 
     // (a) twice in a row (right after one another, and after everything else has been compiled in between)
     for (i, r) in rs.iter().enumerate() {
